@@ -282,9 +282,11 @@ func runC18(r *simkit.Run) {
 			i, sh := i, sh
 			if !sh.started {
 				ch = append(ch, simkit.Choice{Name: fmt.Sprintf("start:%d", i), W: 3, Fire: func() {
-					if err := sh.comp.Start(context.Background(), componenttest.NewNopHost()); err != nil {
+					sctx, started := simkit.StartContext(tp)
+					if err := sh.comp.Start(sctx, componenttest.NewNopHost()); err != nil {
 						r.Failf("lifecycle", "start-error", "start of sharer %d: %v", i, err)
 					}
+					started() // the host cancels the start context as soon as Start has returned (or never)
 					sh.started = true
 					running++
 				}})
@@ -335,7 +337,9 @@ func runC18(r *simkit.Run) {
 		if ext != nil {
 			if !extStarted {
 				ch = append(ch, simkit.Choice{Name: "start:ext", W: 3, Fire: func() {
-					_ = ext.Start(context.Background(), componenttest.NewNopHost())
+					sctx, started := simkit.StartContext(tp)
+					_ = ext.Start(sctx, componenttest.NewNopHost())
+					started()
 					extStarted = true
 					running++
 				}})
